@@ -791,6 +791,10 @@ class WorkerPool:
                 self.map_params = new_map_params
                 self._start_workers()
 
+            # Chunk numbering (used to hand out the tasks) starts at 0 with every call. Apply tasks that were submitted
+            # before this call have advanced it as well
+            self._worker_comms.reset_progress()
+
             # Create async result objects. The imap_iterator container will be used to store the results from the
             # workers. We can yield from that
             imap_iterator = UnorderedAsyncResultIterator(self._cache, n_tasks, timeout=task_timeout)
